@@ -18,7 +18,12 @@ TruthPool == {
   <<"and0", Bin("&", Num(2), Num(1))>>, <<"and1", Bin("&", Num(3), Num(1))>>, <<"len0", Call(Id("len"), <<Arr(<<>>)>>)>>, <<"len1", Call(Id("len"), <<Arr(<<Num(7)>>)>>)>>,
   <<"empty", Lit(S(""))>>, <<"emptyc", Bin("+", Lit(S("")), Lit(S("")))>>, <<"s0", Lit(S("0"))>>, <<"sa", Lit(S("a"))>>, <<"sac", Bin("+", Lit(S("")), Lit(S("a")))>>,
   <<"arr0", Arr(<<>>)>>, <<"arr1", Arr(<<Num(0)>>)>>, <<"obj0", Obj(<<>>, <<>>)>>, <<"obj1", Obj(<<"a">>, <<Num(0)>>)>>,
-  <<"fn", Id("g")>>, <<"nat", Id("len")>> }
+  <<"fn", Id("g")>>, <<"nat", Id("len")>>,
+  \* the same values as results of calls: returned literals, a bare return, falling off the end
+  <<"ret-empty", Call(Id("retE"), <<>>)>>, <<"ret-0", Call(Id("ret0"), <<>>)>>, <<"ret-false", Call(Id("retF"), <<>>)>>, <<"ret-nil", Call(Id("retN"), <<>>)>>, <<"ret-bare", Call(Id("retB"), <<>>)>>,
+  <<"ret-none", Call(Id("retX"), <<>>)>>, <<"ret-a", Call(Id("retA"), <<>>)>>, <<"ret-s0", Call(Id("retS0"), <<>>)>>, <<"ret-arr0", Call(Id("retL"), <<>>)>> }
+RetDecls == << SFun("retE", <<>>, <<SReturn(Lit(S("")))>>), SFun("ret0", <<>>, <<SReturn(Num(0))>>), SFun("retF", <<>>, <<SReturn(Lit(VBool(FALSE)))>>), SFun("retN", <<>>, <<SReturn(Lit(VNil))>>),
+              SFun("retB", <<>>, <<SReturn(None)>>), SFun("retX", <<>>, <<>>), SFun("retA", <<>>, <<SReturn(Lit(S("a")))>>), SFun("retS0", <<>>, <<SReturn(Lit(S("0")))>>), SFun("retL", <<>>, <<SReturn(Arr(<<>>))>>) >>
 
 (* expression forms with probes in every operand position *)
 BinOpsAll == {"+","-","*","/","%","**","<","<=",">",">=","==","!=","&","|","^","<<",">>"}
@@ -72,7 +77,7 @@ OrderCases == { [t |-> Prelude \o <<SPrint(f.e), SPrint(Id("A")), SPrint(Id("O")
 
 (* truthiness: the same value decides identically in if, while, for, !, or, and *)
 TruthCases ==
-  { [t |-> Prelude \o << SIf(v[2], SPrint(Lit(S("T"))), SPrint(Lit(S("F")))),
+  { [t |-> Prelude \o RetDecls \o << SIf(v[2], SPrint(Lit(S("T"))), SPrint(Lit(S("F")))),
                          SPrint(Un("!", v[2])),
                          SPrint(Log("or", Pr(1, v[2]), Pr(2, Lit(S("R"))))), SPrint(LogS("and", Pr(3, v[2]), Pr(4, Lit(S("R"))))),
                          SVar("n", Num(0)),
@@ -81,7 +86,7 @@ TruthCases ==
       c |-> "truth:" \o v[1], key |-> "truth:" \o v[1]] : v \in TruthPool }
 
 Cases == SetToSeq(OrderCases \cup TruthCases)
-Programs == [i \in 1..Len(Cases) |-> LayoutProg(Cases[i].t, 1)]
+Programs == TLCEval([i \in 1..Len(Cases) |-> LayoutProg(Cases[i].t, 1)])
 FamProgOf(i) == Programs[i]
 Init == \E i \in 1..Len(Programs) : InitSem(i, <<>>, FALSE)
 Next == SemNext
